@@ -3,6 +3,7 @@ import json
 from common import prove, ensure_model_runner, run_impl, run_model, Err
 from flow import conclude
 import gen_structs as gs
+import gen_pil
 
 
 def population(rng, quick):
@@ -44,6 +45,12 @@ def run(ctx):
             for _ in range(n_pairs):
                 a = rng.choice(specs)
                 b = rng.choice(specs) if rng.random() < 0.8 else list(a[:-1]) + [rng.randrange(2)]
+                if kind == "complex" and rng.random() < 0.3:
+                    # the same complex in another rotation, the first in the base class, the second in a subclass
+                    rots = gen_pil.rotations(a[0], a[1])
+                    r = rng.choice(rots)
+                    a = [a[0], a[1], 0]
+                    b = [r[0], r[1], rng.choice([1, 2])]
                 reqs.append(("c10_pair", [kind, a, b]))
         impl = run_impl(reqs)
         mreqs, idx = [], []
@@ -66,7 +73,14 @@ def run(ctx):
             # direct statement of the property on this pair
             exp = expected_ops(ka, kb, kind)
             what = None
-            if ops != exp:
+            if kind == "complex":
+                # equality is on canonical forms, and the canonical form is the minimal rotation whichever registry
+                # (base class or subclass) the object lives in and whatever was created before
+                for spec, kk in ((rq[1][1], ka), (rq[1][2], kb)):
+                    want = gen_pil.canon(spec[0], spec[1])
+                    if [list(want[0]), list(want[1])] != kk:
+                        what = f"canonical form {kk} of a complex of class index {spec[2]} is not the minimal rotation {want}"
+            if what is None and ops != exp:
                 what = f"operators [==,!=,<,<=,>,>=] give {ops}, canonical forms give {exp}"
             elif ops[0] and not hash_eq:
                 what = "equal objects with different hashes"
